@@ -142,5 +142,25 @@ func Scaling(n int) map[string][]byte {
 	}
 	sb.WriteString("}\n")
 	m["lines"] = []byte(sb.String())
+	// many tokens on ONE line (a state that loops instead of returning to the pump fills the queue)
+	one := func(name, head, unit, tail string) {
+		m[name] = []byte("package x\n\n@goht T(s string) {\n" + head + strings.Repeat(unit, n) + tail + "\n}\n")
+	}
+	one("oneline-interps", "\t%p ", "t#{s}", " end")
+	one("oneline-interps-adjacent", "\t%p ", "#{s}", "")
+	one("oneline-unescaped-interps", "\t! ", "t#{s}", " end")
+	one("oneline-classes", "\t%p", ".c", " x")
+	one("oneline-ids", "\t%p", "#i", " x")
+	one("oneline-eschash", "\t%p ", "\\#{s} ", "")
+	one("oneline-attrs-dynamic", "\t%p{", "a: #{s}, ", "} x")
+	one("oneline-attrs-bool", "\t%p{", "a, ", "} x")
+	one("oneline-markers", "\t%p", "><", " x")
+	m["filterline-interps"] = []byte("package x\n\n@goht T(s string) {\n\t:plain\n\t\t" + strings.Repeat("t#{s}", n) + " end\n}\n")
+	m["multiline-attrs"] = []byte("package x\n\n@goht T(s string) {\n\t%p{\n" + strings.Repeat("\t\ta: #{s},\n", n) + "\t} x\n}\n")
+	m["objrefs"] = []byte("package x\n\n@goht T(s string) {\n" + strings.Repeat("\t%p[s] x\n", n) + "}\n")
+	m["filter-lines"] = []byte("package x\n\n@goht T(s string) {\n\t:escaped\n" + strings.Repeat("\t\tline <b>\n", n) + "}\n")
+	m["ruby-comment-lines"] = []byte("package x\n\n@goht T(s string) {\n\t-# c\n" + strings.Repeat("\t\tignored\n", n) + "\t%p x\n}\n")
+	m["blank-lines"] = []byte("package x\n\n@goht T(s string) {\n\t%p x\n" + strings.Repeat("\n", n) + "\t%p y\n}\n")
+	m["gocode-lines"] = []byte("package x\n\n" + strings.Repeat("var _ = 1\n", n) + "\n@goht T() {\n\t%p x\n}\n")
 	return m
 }
